@@ -298,4 +298,53 @@ def r4_shared_inputs_read_only(ctx):
             ctx.fail(fit.qual + "#set", "fitness sets parameters on a stored processor directly", where=fit, node=c)
 
 
-RULES = [r1_fresh_copy_per_run, r2_copy_is_what_runs, r3_deepcopy_completeness, r4_shared_inputs_read_only]
+def r5_readout_replace_complete(ctx):
+    """Readout.replace (used by the dask path to derive a run's readout) starts from every constructor setting of the current readout (times, start_time, non_destructive), lets only the given changes override them, and builds a new Readout from the merge."""
+    f = ctx.func("pyxel.exposure.readout:Readout.replace")
+    init = ctx.func("pyxel.exposure.readout:Readout.__init__")
+    rets = [r for r in returns_of(f) if r.value is not None]
+    ok = len(rets) == 1 and isinstance(rets[0].value, ast.Call) and call_name(rets[0].value) in ("Readout", "type(self)", "self.__class__")
+    ctx.check(ok, f.qual + "#new", "returns a new Readout" if ok else "does not return a new Readout", where=f, node=rets[0] if rets else f.node)
+    if not ok:
+        return
+    cl = rets[0].value
+    star = [k for k in cl.keywords if k.arg is None]
+    kwv = f.node.args.kwarg.arg if f.node.args.kwarg else None
+    merged = expand(f, star[0].value) if len(star) == 1 else None
+    base = None
+    if isinstance(merged, ast.Dict) and all(k is None for k in merged.keys) and len(merged.values) == 2:
+        first, second = merged.values
+        okm = dotted(second) == kwv
+        base = expand(f, first) if okm else None
+        ctx.check(okm, f.qual + "#override", "the requested changes override the current settings" if okm else f"merge order is {norm(merged)}: current settings override the requested changes", where=f, node=rets[0])
+    elif isinstance(merged, ast.Dict):
+        base = merged
+    from sa.astutil import flow_closure
+
+    have = {}
+    if isinstance(base, ast.Dict):
+        have.update({k.value: v for k, v in zip(base.keys, base.values) if isinstance(k, ast.Constant)})
+    for k in cl.keywords:
+        if k.arg is not None:
+            have[k.arg] = k.value
+    if not have:
+        ctx.fail(f.qual + "#base", f"the new readout is not built from the current settings ({norm(cl)[:70]})", where=f, node=rets[0])
+        return
+    want = {"times": "self._times", "start_time": "self._start_time", "non_destructive": "self._non_destructive"}
+    for k, src in want.items():
+        if k not in init.params:
+            raise AnalysisError(f"Readout.__init__ lost parameter {k}")
+        v = have.get(k)
+        okk = False
+        if v is not None:
+            chains = {dotted(a) for a in ast.walk(expand(f, v)) if isinstance(a, ast.Attribute)}
+            closure_attrs = set()
+            for nm in flow_closure(f, v):
+                for st_, val_ in local_defs(f, nm):
+                    if val_ is not None:
+                        closure_attrs |= {dotted(a) for a in ast.walk(val_) if isinstance(a, ast.Attribute)}
+            okk = bool({src, src.replace("self._", "self.")} & (chains | closure_attrs))
+        ctx.check(okk, f.qual + f"#{k}", f"carries {k} from {src}" if okk else f"the derived readout does not carry the current `{k}` (falls back to the constructor default)", where=f, node=rets[0])
+
+
+RULES = [r5_readout_replace_complete, r1_fresh_copy_per_run, r2_copy_is_what_runs, r3_deepcopy_completeness, r4_shared_inputs_read_only]
